@@ -121,6 +121,10 @@ type c07Part struct {
 // must survive every getter/checker untouched.
 var c07TypeHi byte
 
+// c07Trail bytes of the allocation behind the message (as the header describes it) are INSIDE len(Raw):
+// the rest of a datagram, the next frame of a stream buffer. Decode accepts that; they are not part of the message.
+var c07Trail int
+
 func c07Build(parts []c07Part, tid [12]byte, slack int, filler func(i int) byte) []byte {
 	n := 20
 	for _, p := range parts {
@@ -153,6 +157,9 @@ var c07Fillers = []func(i int) byte{
 
 var c07Slacks = []int{0, 1, 2, 3, 4, 8, 64}
 
+// c07SlackTrail: the slacks, then variants with trailing bytes inside len(Raw): (slack, trail) = (1,1) (12,4) (20,20) (32,24)
+var c07SlackTrail = append(append([]int{}, c07Slacks...), 1, 12, 20, 32)
+
 // c07Reused: the same call with a destination value that was used before (on a full-length value of the
 // other family, then of the same family) must give the outcome of a fresh destination.
 func c07Reused(gi, l, class int) (key, detail string) {
@@ -160,11 +167,26 @@ func c07Reused(gi, l, class int) (key, detail string) {
 	var call func(m *stun.Message, fresh bool) string
 	full4 := []byte{0, 1, 0x30, 0x39, 9, 8, 7, 6}
 	full6 := []byte{0, 2, 0x30, 0x39, 1, 2, 3, 4, 5, 6, 7, 8, 9, 10, 11, 12, 13, 14, 15, 16}
+	type primedMsg struct {
+		m    *stun.Message
+		snap msgSnap
+	}
+	var primed []primedMsg
+	vals := [][]byte{full6, full4, full6}
+	switch g.Attr {
+	case 0x0009:
+		vals = [][]byte{append([]byte{0, 0, 4, 1}, "a rather long reason phrase, 40 bytes..."...), {0, 0, 3, 0}, append([]byte{0, 0, 6, 99}, "mid"...)}
+	case 0x000A:
+		vals = [][]byte{{0x80, 1, 0x80, 2, 0x80, 3, 0x80, 4, 0x80, 5, 0x80, 6, 0x80, 7, 0x80, 8}, {0, 1}, {0x80, 1, 0x80, 2}}
+	case 0x0006, 0x0014, 0x0015, 0x8022:
+		vals = [][]byte{[]byte("a text value of thirty-two bytes."), {}, []byte("five!")}
+	}
 	prime := func(get func(m *stun.Message) error) {
-		for _, v := range [][]byte{full6, full4, full6} {
-			pm := &stun.Message{Raw: c07Build([]c07Part{{Type: g.Attr, Value: v}}, c07TID, 8, func(int) byte { return 0 })}
+		for _, v := range vals {
+			pm := &stun.Message{Raw: c07Build([]c07Part{{Type: g.Attr, Value: v}, {Type: 0x7F02, Value: []byte("the neighbour after it")}}, c07TID, 8, func(int) byte { return 0 })}
 			if pm.Decode() == nil {
 				_ = get(pm)
+				primed = append(primed, primedMsg{pm, snapMsg(pm)})
 			}
 		}
 	}
@@ -214,15 +236,61 @@ func c07Reused(gi, l, class int) (key, detail string) {
 			err := a.GetFrom(m)
 			return addrOut(a.IP, a.Port, err)
 		}
+	case 0x0009:
+		call = func(m *stun.Message, fresh bool) string {
+			var a stun.ErrorCodeAttribute
+			if !fresh {
+				prime(a.GetFrom)
+			}
+			if err := a.GetFrom(m); err != nil {
+				return "err:" + err.Error()
+			}
+			return fmt.Sprintf("ok:%d:%x", a.Code, a.Reason)
+		}
+	case 0x000A:
+		call = func(m *stun.Message, fresh bool) string {
+			var a stun.UnknownAttributes
+			if !fresh {
+				prime(a.GetFrom)
+			}
+			if err := a.GetFrom(m); err != nil {
+				return "err:" + err.Error()
+			}
+			return fmt.Sprintf("ok:%v", []stun.AttrType(a))
+		}
+	case 0x0006, 0x0014, 0x0015, 0x8022:
+		call = func(m *stun.Message, fresh bool) string {
+			var a stun.TextAttribute
+			if !fresh {
+				prime(func(pm *stun.Message) error { return a.GetFromAs(pm, stun.AttrType(g.Attr)) })
+				if l%2 == 1 {
+					a = a[:0] // the documented reset-and-reuse pattern
+				}
+			}
+			err := a.GetFromAs(m, stun.AttrType(g.Attr))
+			return bytesOut(a, err)
+		}
 	default:
 		return "", ""
 	}
 	var o1, o2 string
+	var d2 string
 	if p := catch(func() {
 		o1 = call(c07Message(gi, l, class, 0, 4, 0), true)
-		o2 = call(c07Message(gi, l, class, 0, 4, 0), false)
+		m2 := c07Message(gi, l, class, 0, 4, 0)
+		s2 := snapMsg(m2)
+		o2 = call(m2, false)
+		d2 = s2.diff(m2)
 	}); p != "" {
 		return "panic/" + g.Name, p
+	}
+	if d2 != "" {
+		return "side-effect/" + g.Name, fmt.Sprintf("%s into a destination used before, on a %d-byte value: %s", g.Name, l, d2)
+	}
+	for i, pm := range primed {
+		if d := pm.snap.diff(pm.m); d != "" {
+			return "writes-into-earlier-message/" + g.Name, fmt.Sprintf("%s with one destination over several messages: message %d, read earlier, was changed by a later read (%s)", g.Name, i+1, d)
+		}
 	}
 	if o1 != o2 {
 		return "depends-on-destination-history/" + g.Name, fmt.Sprintf("%s on a %d-byte value (class %d): fresh destination gives %q, a destination used before gives %q", g.Name, l, class, clipS(o1), clipS(o2))
@@ -241,6 +309,7 @@ type c07Case struct {
 	Slack2  int   `json:"slack2"`
 	Filler2 int   `json:"filler2"`
 	Seed    int64 `json:"seed"`
+	Trail   int   `json:"trail,omitempty"`
 }
 
 var c07TID = [12]byte{0x5a, 0x01, 0xfe, 0x33, 0x80, 0x7f, 0x11, 0x22, 0xc3, 0xd4, 0xe5, 0xf6}
@@ -317,7 +386,8 @@ func c07Message(gi, l, class, pos, slack, filler int) *stun.Message {
 	}
 	val := c07Value(g, l, class, before)
 	parts := append(append(append([]c07Part{}, before...), c07Part{Type: g.Attr, Value: val}), after...)
-	raw := c07Build(parts, c07TID, slack, fill)
+	raw := c07Build(parts, c07TID, max(slack, c07Trail), fill)
+	raw = raw[:len(raw)+c07Trail]
 	m := &stun.Message{Raw: raw}
 	if err := m.Decode(); err != nil {
 		panic("c07: generated message does not decode: " + err.Error())
@@ -414,12 +484,20 @@ func init() {
 						for pos := 0; pos < np; pos++ {
 							// leading type bits: part of the covered span of the checkers, so fixed per twin family
 							c07TypeHi = []byte{0x00, 0xC0, 0x40, 0x80}[(l+class)%4]
-							for _, slack := range c07Slacks {
+							for si, slack := range c07SlackTrail {
 								for filler := range c07Fillers {
+									c07Trail = 0
+									if si >= len(c07Slacks) {
+										if filler == 0 {
+											continue
+										}
+										c07Trail = slack - (si-len(c07Slacks))%2*8
+									}
 									c.Eval(1)
 									c.DistinctByConstruction++
 									out, key, detail := c07Eval(gi, l, class, pos, slack, filler)
-									k := c07Case{Getter: gi, Len: l, Class: class, Pos: pos, Slack: slack, Filler: filler, Pos2: -1, Seed: c.Seed}
+									k := c07Case{Getter: gi, Len: l, Class: class, Pos: pos, Slack: slack, Filler: filler, Pos2: -1, Seed: c.Seed, Trail: c07Trail}
+									c07Trail = 0
 									if key != "" {
 										c.Violation(key, detail, k)
 										continue
@@ -434,7 +512,9 @@ func init() {
 										if fam%97 == 3 {
 											c.Sample(map[string]interface{}{"getter": g.Name, "value_len": l, "class": class, "outcome": clipS(out), "message_hex": hex.EncodeToString(c07Message(gi, l, class, pos, slack, filler).Raw)})
 										}
-									} else if out != first {
+									} else if out != first && !(g.Attr == 0x8028 && k.Trail > 0) {
+										// (Fingerprint.Check covers Raw up to its last 8 bytes - C05 - so trailing bytes inside
+										// len(Raw) change its covered span: only totality and side effects are checked for it there)
 										k.Pos2, k.Slack2, k.Filler2 = f0[0], f0[1], f0[2]
 										c.Violation("non-local/"+g.Name, fmt.Sprintf("%s on the same %d-byte value (class %d) gives %q at position %d/cap+%d/filler %d but %q at position %d/cap+%d/filler %d",
 											g.Name, l, class, clipS(out), pos, slack, filler, clipS(first), f0[0], f0[1], f0[2]), k)
@@ -463,7 +543,9 @@ func init() {
 				}
 				return
 			}
+			c07Trail = k.Trail
 			out, key, detail := c07Eval(k.Getter, k.Len, k.Class, k.Pos, k.Slack, k.Filler)
+			c07Trail = 0
 			if key != "" {
 				c.Violation(key, detail, k)
 				return
